@@ -50,6 +50,7 @@ func RunTests(ctx context.Context, w io.Writer, path string) error {
 func getTestFiles(ctx context.Context, path string) ([]File, error) {
 	var files []File
 	fs := ctxfs.SourceFsFrom(ctx)
+	root := path
 
 	err := afero.Walk(fs, path, func(path string, info os.FileInfo, walkErr error) error {
 		if walkErr != nil {
@@ -57,8 +58,8 @@ func getTestFiles(ctx context.Context, path string) ([]File, error) {
 		}
 
 		if info.IsDir() {
-			// Skip hidden dirs.
-			if strings.HasPrefix(info.Name(), ".") {
+			// Skip hidden dirs, but never the directory the user asked for.
+			if path != root && strings.HasPrefix(info.Name(), ".") {
 				return filepath.SkipDir
 			}
 
